@@ -617,4 +617,50 @@ theorem wireFormat_roundtrip (m : Message) (h : m.WF) :
     rw [q4]; simp only [Outcome.bind]
     simp
 
+/-! ### chunks and the query name -/
+
+theorem chunks_flatten (n : Nat) (hn : 0 < n) (p : Bytes) : (chunks p n).flatten = p := by
+  induction p using chunks.induct n with
+  | case1 p h =>
+    rw [chunks, dif_pos h]
+    rcases h with h | h
+    · simp [List.length_eq_zero_iff.mp h]
+    · omega
+  | case2 p h ih =>
+    rw [chunks, dif_neg h]
+    simp [ih]
+
+theorem chunks_bounds (n : Nat) (hn : 0 < n) (p : Bytes) : ∀ c ∈ chunks p n, 0 < c.length ∧ c.length ≤ n := by
+  induction p using chunks.induct n with
+  | case1 p h => rw [chunks, dif_pos h]; simp
+  | case2 p h ih =>
+    rw [chunks, dif_neg h]
+    intro c hc
+    simp only [List.mem_cons] at hc
+    rcases hc with rfl | hc
+    · simp [List.length_take]; omega
+    · exact ih c hc
+
+theorem trimSuffix_append (pre dom : Name) : trimSuffix (pre ++ dom) dom = some pre := by
+  unfold trimSuffix
+  have h1 : ¬ ((pre ++ dom).length < dom.length) := by simp
+  have h2 : (pre ++ dom).length - dom.length = pre.length := by simp
+  simp only [h1, if_false, h2]
+  simp
+
+/-- the name `send` builds is taken apart again by `responseFor`: the text handed to the base32
+decoder is the text the base32 encoder produced -/
+theorem recvEncoded_sendName (enc : Bytes) (dom name : Name) (hu : ∀ b ∈ enc, ¬ (97 ≤ b ∧ b ≤ 122))
+    (h : sendName enc dom = .ok name) : recvEncoded name dom = some enc := by
+  unfold sendName queryName at h
+  have hn := newName_ok_eq h
+  subst hn
+  unfold recvEncoded
+  rw [trimSuffix_append, Option.map_some, chunks_flatten 63 (by omega), List.map_map]
+  congr 1
+  conv => rhs; rw [← List.map_id enc]
+  apply List.map_congr_left
+  intro b hb
+  simp [upper_lower b (hu b hb)]
+
 end CJ.Codec
